@@ -100,6 +100,36 @@ def run(args, prop="C15", reps=1, finish=True):
         all_cases += rnd.sample(cases, min(2, len(cases)))
         reqs = meta = res = first = seen = None
     cases = all_cases
+    # an imported function which fails: when the importer catches the exception it is back in its own module - its globals, its
+    # private functions, its locals - on both backends (HmsLink's graphs have no exceptions; written out with their expected output)
+    lib = ("let x = \"b.x\";\nlet calls = 0;\nfn helper() -> str { \"b.helper\" }\n"
+           "pub fn risky(n: int) -> str { calls += 1; if n > 0 { throw(\"b failed \" + x); } helper() }\n"
+           "pub fn nested(n: int) -> str { try { risky(n) } catch e { \"b caught \" + x } }\nfn main() { }\n")
+    handwritten = [
+        ({"main": "import { risky, nested } from lib;\nlet x = \"a.x\";\nfn helper() -> str { \"a.helper\" }\n"
+                  "fn main() {\n    let local = \"a.local\";\n    try { println(risky(1)); } catch e { println(\"caught\", e.message, x, helper(), local); }\n"
+                  "    println(x, helper(), local, risky(0), nested(1));\n    for i in 0..2 { try { risky(i + 1); } catch e { println(i, x, helper()); } }\n    println(\"end\", x);\n}\n", "lib": lib},
+         "caught b failed b.x a.x a.helper a.local\na.x a.helper a.local b.helper b caught b.x\n0 a.x a.helper\n1 a.x a.helper\nend a.x\n"),
+    ]
+    hreqs = [{"op": "run", "id": i, "a": {"modules": mods, "entry": "main", "backend": b, "timeout_ms": 8000}} for i, (mods, want) in enumerate(handwritten) for b in ("vm", "tree")]
+    hres = pool.map(hreqs, timeout=30)
+    k = 0
+    for mods, want in handwritten:
+        for b in ("vm", "tree"):
+            rr = hres[k]
+            k += 1
+            rep.count()
+            rep.nontrivial(("handwritten", json.dumps(mods, sort_keys=True), b))
+            feat = {"family": "exception-across-modules", "backend": b}
+            if "r" not in rr:
+                from .sem import panic_class
+                rep.fail(dict(feat, kind="hostcrash" if "crash" in rr else "hang", panic=panic_class((rr.get("crash") or {}).get("stderr", ""))), {"modules": mods, "real": str(rr)[:1200]})
+                continue
+            a = rr["r"]
+            if not a["accepted"]:
+                raise C.Machinery("the hand-written module program of %s is not accepted: %s" % (prop, [d["msg"] for d in a["diags"] if d["level"] == "Error"][:3]))
+            if a["out"] != want or (a.get("outcome") or {}).get("kind") != "done":
+                rep.fail(dict(feat, kind="wrong-output"), {"modules": mods, "want": want, "got": a["out"], "outcome": a.get("outcome")})
     for c in rnd.sample(cases, min(2, len(cases))):
         rep.sample({"graph": c["g"], "accepted": c["accepted"], "errors": c["errors"], "modules": L.render(c["g"])[0]})
     rep.cov["exhaustive"] = thorough and prop == "C15"
